@@ -209,7 +209,7 @@ def oracle_code(case):
 
     # scribble-and-repeat: after a call returned, invert every bit of the RETURNED buffer and of the bitarray that was
     # passed in (both in place), then repeat the call with a fresh argument: same result as the first time.  A cache that
-    # hands out or retains a caller-visible buffer fails here.
+    # hands out or retains a caller-visible buffer fails here; so does a shared output buffer (earlier result rewritten).
     calls = [("encode(message)", V.encode, m, enc_kw), ("encode(deinterleaved matrix)", V.encode, de_all, enc_kw), ("deinterleave_all_bits", V.deinterleave_all_bits, enc, {})]
     if code == "128_72":
         calls += [("encode(message+cs5)", V.encode, with_cs, {}), ("deinterleave_cs5_bits", V.deinterleave_cs5_bits, enc, {})]
@@ -223,6 +223,12 @@ def oracle_code(case):
         a1 = argument.copy()
         st, r1 = call(fn, a1, **kw)
         saved = _ba(r1)
+        # a result that was handed out is not rewritten by a later call with another (equally valid) argument
+        other = argument.copy()
+        other.invert()
+        call(fn, other, **kw)
+        if _ba(r1) != saved:
+            raise Fail("earlier_result_unchanged_by_later_call", _diff(r1, saved), "no difference", klass=name)
         if isinstance(r1, bitarray):
             r1.invert()
         a1.invert()
